@@ -58,5 +58,15 @@ LinExp(f, a, b, p) == CASE f \in {"add", "addto", "iaddto"} -> WAdd(a, b)
 RowLd == /\ Len(R.out) = R.N
          /\ \A t \in 1..R.N : Wd(R.out[t]) = LinExp(R.f, Wd(R.a[t]), Wd(R.b[t]), R.p)
 
-RowOK == CASE R.k = "ms" -> RowMs [] R.k = "md" -> RowMd [] R.k = "xd" -> RowXd [] R.k = "xs" -> RowXs [] R.k = "ld" -> RowLd [] OTHER -> FALSE
+(* ---- norms and distances ---- *)
+IAbs(x) == IF x < 0 THEN 0 - x ELSE x
+RECURSIVE SumSq(_, _)
+SumSq(v, k) == IF k = 0 THEN 0 ELSE v[k] * v[k] + SumSq(v, k - 1)
+CAbs(w) == IF w.h >= 32768 THEN WNeg(w) ELSE w                                  \* distance to 0 on the torus, in units of 2^-32 (at most 2^31)
+WLe(x, y) == x.h < y.h \/ (x.h = y.h /\ x.l <= y.l)
+TD(t) == CAbs(WSub(Wd(R.a[t]), Wd(R.b[t])))
+RowNrm == /\ R.sq2 = SumSq(R.p, R.N) /\ R.n2sq = SumSq(R.p, R.N)
+          /\ (\A t \in 1..R.N : IAbs(R.p[t] - R.q[t]) <= R.idist) /\ (\E t \in 1..R.N : IAbs(R.p[t] - R.q[t]) = R.idist)
+          /\ R.texact = 1 /\ (\A t \in 1..R.N : WLe(TD(t), R.tdist)) /\ (\E t \in 1..R.N : TD(t) = R.tdist)
+RowOK == CASE R.k = "nrm" -> RowNrm [] R.k = "ms" -> RowMs [] R.k = "md" -> RowMd [] R.k = "xd" -> RowXd [] R.k = "xs" -> RowXs [] R.k = "ld" -> RowLd [] OTHER -> FALSE
 =============================================================================
